@@ -3018,8 +3018,12 @@ evhttp_make_request(struct evhttp_connection *evcon,
 		 * evhttp_connection_connect_(), assumes that req lies in
 		 * evcon->requests.  Thus, enqueue the request in advance and
 		 * remove it in the error case. */
-		if (res != 0)
+		if (res != 0) {
 			TAILQ_REMOVE(&evcon->requests, req, next);
+			/* on failure the request is released, like on the
+			 * other failing returns above */
+			evhttp_request_free_auto(req);
+		}
 
 		return (res);
 	}
